@@ -30,6 +30,20 @@ func verifTaskEnd(point string, t *Task) {
 	})
 }
 
+// verifTaskEndAt is verifTaskEnd with the clock reading the section based its decision on.
+func verifTaskEndAt(point string, t *Task, now time.Time) {
+	verifEvent(point, t, VerifTaskState{
+		Canceled:  t.canceled,
+		Executing: t.executing,
+		Overtime:  t.overtime,
+		ExecuteAt: t.executeAt,
+		MaxDelay:  t.maxDelay,
+		InQueue:   t.queueElement != nil,
+		InPrio:    t.prioritizedQueueElement != nil,
+		InSched:   t.scheduleListElement != nil,
+	}, now)
+}
+
 // VerifTaskState is a copy of the scheduling fields of a task.
 type VerifTaskState struct {
 	Canceled, Executing, Overtime bool
